@@ -52,9 +52,9 @@ def leftsibling(node):
     >>> print(util.leftsibling(joe))
     Node('/Dan/Jan')
     """
-    if node.parent:
+    if node.parent is not None:
         pchildren = node.parent.children
-        idx = pchildren.index(node)
+        idx = _index_of(pchildren, node)
         if idx:
             return pchildren[idx - 1]
     return None
@@ -78,12 +78,20 @@ def rightsibling(node):
     >>> print(util.rightsibling(joe))
     None
     """
-    if node.parent:
+    if node.parent is not None:
         pchildren = node.parent.children
-        idx = pchildren.index(node)
+        idx = _index_of(pchildren, node)
         try:
             return pchildren[idx + 1]
         except IndexError:
             return None
     else:
         return None
+
+
+def _index_of(children, node):
+    """Return index of `node` in `children`, comparing by identity."""
+    for idx, child in enumerate(children):
+        if child is node:
+            return idx
+    raise ValueError("%r is not in %r" % (node, children))
